@@ -29,17 +29,27 @@ RULE = ("outer timeline (cold or hot, completing / erroring / never completing) 
 ASSUMPTIONS = ["single-threaded / virtual-time execution: one run is one list of tagged events (C43 covers real threads)",
                "each element of the outer sequence is a distinct inner observable, the outer sequence does not notify inside subscribe"]
 TRUSTED_EXTRA = ["the logging cold/hot/sync sources of harness/props/comb_common.py as measuring instruments"]
-LEVEL_TEXT = ("Lean theorems over the trace machines of merge_all and merge(max_concurrent) (group composite, active_count, queue as written), for every "
-              "list of tagged events: output = the accepted inner elements in arrival order (hence per-inner order, exact multiset, same step = same time), "
-              "completion only after the outer and every subscribed inner completed, first error terminates, at most max_concurrent live inners in every "
-              "reachable state, queued inners start in arrival order, concat_map is the ordered concatenation. Tied to /repo by replaying recorded event lists.")
-LEVEL_NOTE = "see the final report; partial theorems are named _partial"
+LEVEL_TEXT = ("Lean theorems (arbitrary event lists = all interleavings, no bounds) on the trace machines of merge_all and merge(max_concurrent): output = the delivered inner "
+"elements in arrival order, each emitted in the step (= virtual instant) that delivers it (per-inner order, exact multiset); completion iff the outer completed and no arrived "
+"inner is left uncompleted (merge_all; one direction for max_concurrent); the first delivered error is the last output; at most max_concurrent live inners in every reachable "
+"state; inners start in arrival order (subscribed ++ queue = arrivals); with max_concurrent=1 the only live inner is the most recently subscribed. Tied to /repo by replaying "
+"recorded event lists of generated real runs (outer/inner cold, hot, rude, synchronous sources; raising mappers; dispose) and comparing outputs and effects in order, plus a "
+"property-text oracle.")
+LEVEL_NOTE = ("Model = RxModel/Comb.lean + RxModel/CombHO.lean (merge_all_: group composite with the len(group)==1 test as `group`; merge_(max_concurrent): "
+"active_count, queue, is_stopped). flat_map/flat_map_indexed/concat_map/rx.merge are these machines behind map / from_iterable (the mapper's result is the "
+"outer element; a raising mapper is an outer error). Full: merge_per_inner_order (+_maxc, +_tagged), merge_exact_multiset, merge_first_error, merge_maxc_bound, "
+"merge_queue_fifo, merge_completes_iff (merge_all: iff, as a fold over the delivered notifications), concat_map_ordered (stated as: the only live inner is the "
+"most recently subscribed one; with fifo + per-inner order this is the ordered concatenation - the explicit block decomposition of the output is not derived in Lean). "
+"PARTIAL: merge_completes_maxc_partial - for merge(max_concurrent)/concat_map only the direction 'completed => outer stopped, active_count 0, no live inner, queue "
+"empty' is proved (missing: the converse and a formulation on delivered notifications; needs a no-duplicate-arrival hypothesis because the model names inner "
+"subscriptions by id). Inners that notify inside subscribe are compared on outputs and effect order except the position of their own unsubscribe (time only). "
+"Threads are C43.")
 
 OPS = ["merge_all", "merge", "merge", "flat_map", "flat_map_indexed", "concat_map", "rx_merge", "merge"]
 
 
 def cases(rng, tier):
-    n = fw.tier_scale(tier, 4000, 36000)
+    n = fw.tier_scale(tier, 4000, 60000)
     for i in range(n):
         op = OPS[i % len(OPS)]
         c = cc.gen_ho_case(rng, op)
